@@ -111,8 +111,11 @@ var c01Rules = []c01Rule{
 			"a!=null?undefined:a.b", "a==null?undefined:-a.b", "a==null?undefined:a.b+1", "a==null?undefined:new a.b", "a==null?undefined:a?.b", "a==null?null:a.b.c", "a!==null&&a!==undefined?a.b:null", "o1.p==null?undefined:o1.p.q"}},
 	{id: "cond-optchain-template", doc: "util.go:533 a==null?undefined:a`t` => a?.`t` (a tagged template in an optional chain is a SyntaxError)", kind: 'E',
 		t: []string{"a==null?undefined:a.b``", "a==null?undefined:a``", "a!=null?a.b`t${c}`:void 0"}, known: "K11-optchain-template"},
-	{id: "cond-optchain-group", doc: "js.go:1137 a group around an optional chain in member/call position", kind: 'E',
-		t: []string{"(a==null?undefined:a.b).c", "(a==null?undefined:a.b)()", "(a==null?void 0:a.b)[c]", "(a?.b).c", "(a?.b)[c]", "(a?.b)()", "(a?.())()", "(a?.[b]).c", "(a?.b.c).d", "new(a?.b)", "(a?.b).c(1)", "(a?.(c)).d(1)"}, known: "K10-optchain-group"},
+	{id: "cond-optchain-group", doc: "js.go GroupExpr (15c7753): a conditional that is the object of a member access / index / call is not turned into an optional chain, parentheses around an optional link stay", kind: 'E',
+		t: []string{"(a==null?undefined:a.b).c", "(a==null?undefined:a.b)()", "(a==null?void 0:a.b)[c]", "(a?.b).c", "(a?.b)[c]", "(a?.b)()", "(a?.())()", "(a?.[b]).c", "new(a?.b)", "(a?.b).c(1)", "(a?.(c)).d(1)", "(a==null?undefined:a.b.c).d", "((a==null?undefined:a.b)).c",
+			"(a==null?undefined:a.b).c=1", "(a==null?b:a).c", "(c?(a==null?undefined:a.b):d).b", "new(a==null?undefined:a.b)", "(a==null?undefined:a.b)+1", "-(a?.b)", "(a?.b)||c", "(a==null?undefined:a.b)``"}, hit: `x=\(a==null\?0\[0\]:a\.b\)\.c`},
+	{id: "optchain-group-long", doc: "js.go GroupExpr: parentheses around a longer optional chain in object position are still dropped (K-C01-10, pinned)", kind: 'E',
+		t: []string{"(a?.b.c).d", "(a?.b.c)()", "(a?.[b].c)[d]", "(a?.b(c)).d"}, known: "K10-optchain-group"},
 	{id: "cond-call-merge", doc: "util.go a?f(b):f(c) => f(a?b:c)", kind: 'E',
 		t: []string{"a?f(b):f(c)", "a?f(b):g(c)", "a?o1.m(b):o1.m(c)", "a?f(b,1):f(c,1)", "a?f():f()", "a?f(...b):f(c)", "a?f(b):f(...c)", "a?(f)(b):f(c)", "a<b?f(1):f(2)", "a?f(b?1:2):f(c)", "a?f(b):f(c?1:2)", "a?new f(b):new f(c)", "a?f(b)(1):f(c)(1)", "a?f?.(b):f?.(c)"}, hit: `x=f\(a\?b:c\)`},
 	{id: "cond-call-merge-effect", doc: "util.go call merging below a condition with side effects (K-C01-2)", kind: 'P', t: []string{"x=(f=g,1)?f(1):f(2)", "x=(f=g,a)?f(1):f(2);h(x)", "x=h(f=g)?f(1):f(2)"}, known: "K2-call-merge"},
@@ -161,12 +164,12 @@ var c01Rules = []c01Rule{
 	{id: "else-function-flatten", doc: "stmtlist.go: a flattened else block takes its function declarations into the parent scope (K-C01-7)", kind: 'P',
 		t: []string{"f(typeof z);if(a)throw 1;else{function z(){}}", "\"use strict\";function t(p){if(p)return 1;else{function z(){}}return typeof z}f(t(a))", "function t(p){g(typeof z);if(p)return 1;else{function z(){}}return typeof z}f(t(a))",
 			"f(typeof z);if(a){function z(){}}else throw 1"}, known: "S11f-else-function"},
-	{id: "class-effects", doc: "stmtlist.go:118 / util.go hasSideEffects: a class is treated as pure (K-C01-13)", kind: 'P',
-		t: []string{"{class C{static s=f(1)}}", "if(a){class C{static s=f(1)}}", "{class C extends f(1){}}", "{class C{static{f(1)}}}", "{class C{[f(1)](){}}}", "{let z=class{static s=f(1)}}", "x=void class{static s=f(1)};g(x)"}, known: "S15-class-effects"},
+	{id: "class-effects", doc: "stmtlist.go:118 / util.go hasSideEffects (64da31a): heritage, computed keys, static initialisers and static blocks of a class are effects", kind: 'P',
+		t: []string{"{class C{static s=f(1)}}", "if(a){class C{static s=f(1)}}", "{class C extends f(1){}}", "{class C{static{f(1)}}}", "{class C{[f(1)](){}}}", "{let z=class{static s=f(1)}}", "x=void class{static s=f(1)};g(x)"}, hit: `^\{class C\{static s=f\(1\)\}\}$`},
 	{id: "class-pure", doc: "stmtlist.go:118 a block with a lone class without heritage, computed keys and static initialisers is dropped", kind: 'P',
 		t: []string{"{class C{}}f(1)", "{class C{m(){f(1)}static t=1;u=f(2)}}g(3)", "if(a){class C{static m(){}}}g(1)", "{let z=class{}}f(1)", "{class C{}f(typeof C)}", "{class C{static s=1}f(C.s)}"}, hit: `^f\(1\)$`},
-	{id: "hoist-object-pattern", doc: "vars.go hoistVars: a var declaration with an object pattern that binds nothing becomes `{…}=…` at the start of a statement (K-C01-14)", kind: 'P',
-		t: []string{"function t(){var {a}=o1;let z=1;var {n:[]}=o2}t()", "function t(){var {a}=o1;let z=1;var {}=o2;g(a)}t()", "var {a}=o1;let z=2;var {n:[]}=o2;g(a,z)"}, known: "S16-hoist-empty-pattern"},
+	{id: "hoist-object-pattern", doc: "vars.go hoistVars: a var declaration with an object pattern that binds nothing is parenthesised at the start of a statement (abc0f16)", kind: 'P',
+		t: []string{"function t(){var {a}=o1;let z=1;var {n:[]}=o2}t()", "function t(){var {a}=o1;let z=1;var {}=o2;g(a)}t()", "var {a}=o1;let z=2;var {n:[]}=o2;g(a,z)"}, hit: `let z=1;\(\{n:\[\]\}=o2\)`},
 	{id: "hoist-pattern", doc: "vars.go hoistVars: destructuring declarations as hoist target / converted to assignments", kind: 'P',
 		t: []string{"function t(){var {a}=o1;f(a);var [b]=o2;g(b)}t()", "function t(){var z=1;f(z);var {a}=o1,y=2;g(a,y)}t()", "function t(){var {a}=o1;f(a);var {n:[]}=o2;g(1)}t()", "var {a}=o1;if(a)var {n:[]}=o2;g(a)", "var {a}=o1;for(var {n:[]}=o2;;)break",
 			"function t(){var [a]=[1];let z=1;var [b]=[2];g(a,b,z)}t()", "function t(){var {a}=o1;f(a);var {b}=o2;g(b)}t()", "function t(){var z=1;for(var {a} of [o1])g(a,z)}t()", "function t(){var z=1;for(var k in o1)g(k,z)}t()"}, hit: `var\{a\}=o1,b;f\(a\),\[b\]=o2`},
